@@ -144,7 +144,7 @@ func (cs *c19Case) fold(start *pongo2.Value) (*pongo2.Value, error) {
 }
 
 var c19Positions = []string{"output", "if", "elif", "for", "with", "with_rebind", "with_as", "set", "include_with", "firstof", "ifequal", "widthratio", "macro_arg", "macro_default", "subscript",
-	"filter_tag", "plus_operand", "neg", "cycle", "ifchanged", "array_item", "array_index", "call_arg", "eq_operand", "not", "in_right", "macro_default_shadowed"}
+	"filter_tag", "plus_operand", "neg", "cycle", "ifchanged", "array_item", "array_index", "call_arg", "eq_operand", "not", "in_right", "macro_default_shadowed", "macro_arg_over_default"}
 
 func printItems(v *pongo2.Value) string {
 	var sb strings.Builder
@@ -218,6 +218,10 @@ func (cs *c19Case) build() (files map[string]string, expect func(v *pongo2.Value
 	case "macro_default":
 		src = "{% macro m(a=" + e + ") %}{{ a }}{% endmacro %}{{ m() }}"
 		expect = func(v *pongo2.Value) string { return v.String() }
+	case "macro_arg_over_default":
+		// an argument that is passed is the parameter's value, whatever it evaluates to (also nothing)
+		src = `{% macro m(a="DEFAULT") %}{{ a }}{% endmacro %}{{ m(` + e + `) }}`
+		expect = func(v *pongo2.Value) string { return pongo2.AsValue(v.Interface()).String() }
 	case "macro_default_shadowed":
 		// the scope the macro is defined and called in happens to use the parameter's name
 		src = `{% set a = "OUTER" %}{% macro m(a=` + e + `) %}{{ a }}{% endmacro %}{% with a="OUTER2" %}{{ m() }}{% endwith %}`
@@ -279,7 +283,9 @@ func (cs *c19Case) build() (files map[string]string, expect func(v *pongo2.Value
 		expect = func(v *pongo2.Value) string { return map[bool]string{true: "T", false: "F"}[!v.IsTrue()] }
 	case "in_right":
 		src = `{% if "o" in ` + e + ` %}T{% else %}F{% endif %}`
-		expect = func(v *pongo2.Value) string { return map[bool]string{true: "T", false: "F"}[v.Contains(pongo2.AsValue("o"))] }
+		expect = func(v *pongo2.Value) string {
+			return map[bool]string{true: "T", false: "F"}[v.Contains(pongo2.AsValue("o"))]
+		}
 	case "filter_tag":
 		body, rendered := "", ""
 		switch cs.Body {
@@ -569,7 +575,7 @@ func genC19(t *rapid.T) *c19Case {
 
 var _ = register(&propSpec{
 	ID:    "C19.chain",
-	Rule:  "chains of 0-4 deterministic registered filters (registry read through the hook; filters that answer two identical calls differently are detected at start and left out) with literal / context-name / dotted-path / enclosing-scope (with, for, set) parameters over literal and named inputs of every kind, written at 27 positions: output, if, elif, for-in, with (both syntaxes; also with further pairs of the same tag rebinding every name the expression reads), set, include-with, firstof, ifequal, widthratio, macro argument and default (also where the surrounding scope binds the parameter's name), subscript, cycle, ifchanged, right operand of +, operand of unary minus, item of an array literal (iterated and indexed), function-call argument, right operand of == and of in, operand of not, and the filter tag (bodies: text, text with markup characters, variable, empty, empty variable, loop, and a body that re-enters the same filter tag through a recursive macro; with literal parameters only also under autoescape on, where the chain must still equal the fold - string literals include & < > '). Oracle: left-to-right fold of the public ApplyFilter with parameters taken from the reference scope, observed through the position's natural observation; a failing fold requires an execution error. Non-trivial: chain >= 2 whose reversal gives a different result, or a parameter from an enclosing scope; distinct by source.",
+	Rule:  "chains of 0-4 deterministic registered filters (registry read through the hook; filters that answer two identical calls differently are detected at start and left out) with literal / context-name / dotted-path / enclosing-scope (with, for, set) parameters over literal and named inputs of every kind, written at 28 positions: output, if, elif, for-in, with (both syntaxes; also with further pairs of the same tag rebinding every name the expression reads), set, include-with, firstof, ifequal, widthratio, macro argument (also for a parameter that has a default) and default (also where the surrounding scope binds the parameter's name), subscript, cycle, ifchanged, right operand of +, operand of unary minus, item of an array literal (iterated and indexed), function-call argument, right operand of == and of in, operand of not, and the filter tag (bodies: text, text with markup characters, variable, empty, empty variable, loop, and a body that re-enters the same filter tag through a recursive macro; with literal parameters only also under autoescape on, where the chain must still equal the fold - string literals include & < > '). Oracle: left-to-right fold of the public ApplyFilter with parameters taken from the reference scope, observed through the position's natural observation; a failing fold requires an execution error. Non-trivial: chain >= 2 whose reversal gives a different result, or a parameter from an enclosing scope; distinct by source.",
 	Gen:   func(t *rapid.T) any { return genC19(t) },
 	New:   func() any { return &c19Case{} },
 	Check: checkC19,
